@@ -19,9 +19,19 @@ CLASSES = {
         "__alias__": {"_mark": ["_tokenizer", "mark"], "_reset": ["_tokenizer", "reset"]},
         "__consts__": {"KEYWORDS": "KEYWORDS", "SOFT_KEYWORDS": "SOFT_KEYWORDS"},
     },
+    # abstraction of the `end_progs` list: its length and its top frame (what `_tokenize`, `handle_end_progs` and the mode
+    # predicates read); frames below the top are not modelled
+    "EndProg": {"mode_kind": "int", "parenlevel": "int", "text": "str", "contline": "str", "start": "pos", "quote": "str"},
+    "EPStack": {"n": "nat", "top": "obj:EndProg"},
     "TokenizerState": {
         "lnum": "int", "parenlev": "int", "continued": "bool", "indents": "seq[int]", "last_line": "str", "line": "str",
-        "pos": "int", "max": "int",
+        "pos": "int", "max": "int", "end_progs": "obj:EPStack",
+        "__init__": {
+            "lnum": lambda ex, st: z3.IntVal(0), "parenlev": lambda ex, st: z3.IntVal(0), "continued": lambda ex, st: z3.BoolVal(False),
+            "indents": lambda ex, st: z3.Unit(z3.IntVal(0)), "last_line": lambda ex, st: z3.StringVal(""),
+            "line": lambda ex, st: z3.StringVal(""), "pos": lambda ex, st: z3.IntVal(0), "max": lambda ex, st: z3.IntVal(0),
+            "end_progs": lambda ex, st: PyObj("EPStack", {"n": z3.IntVal(0), "top": ex.mk("obj:EndProg", "top0", st)[0]}),
+        },
     },
 }
 
@@ -193,6 +203,12 @@ def sf_last(ex, st, sq):
     return sq[z3.Length(sq) - 1]
 
 
-SPEC_FUNCS = {"indent_col": sf_indent_col, "indents_wf": sf_indents_wf, "is_blank_char": sf_is_blank_char, "last": sf_last, "lr_cache_ok": sf_lr_cache_ok, "cache_ok": sf_cache_ok, "cache_has": sf_cache_has, "cache_end": sf_cache_end, "cache_tree": sf_cache_tree, "em_cached": sf_em_cached, "tk_ok": sf_tk_ok, "can_peek": sf_can_peek, "layout": sf_layout, "cache_wf": sf_cache_wf, "truthy": sf_truthy, "is_none": sf_is_none, "pos_le": sf_pos_le,
+def sf_lines_left(ex, st, rl):
+    g = rl.bound
+    st.assume(z3.And(g.pos >= 0, g.pos <= z3.Length(g.items)))      # type invariant of the line source (A3)
+    return z3.Length(g.items) - g.pos
+
+
+SPEC_FUNCS = {"lines_left": sf_lines_left, "indent_col": sf_indent_col, "indents_wf": sf_indents_wf, "is_blank_char": sf_is_blank_char, "last": sf_last, "lr_cache_ok": sf_lr_cache_ok, "cache_ok": sf_cache_ok, "cache_has": sf_cache_has, "cache_end": sf_cache_end, "cache_tree": sf_cache_tree, "em_cached": sf_em_cached, "tk_ok": sf_tk_ok, "can_peek": sf_can_peek, "layout": sf_layout, "cache_wf": sf_cache_wf, "truthy": sf_truthy, "is_none": sf_is_none, "pos_le": sf_pos_le,
               "endmarker_last": sf_endmarker_last, "endmarker_pulled": sf_endmarker_pulled, "gen_pos": sf_gen_pos,
               "gen_len": sf_gen_len, "gen_item": sf_gen_item, "prefix_of": sf_prefix_of, "tok_type": sf_tok_type}
